@@ -49,6 +49,7 @@ def dispatch (j : Json) : Except String Json := do
   | "catalogue" => opCatalogue j
   | "minor_build" => opMinorBuild j
   | "major_spec" => opMajorSpec j
+  | "major_corr" => opMajorCorr j
   | "planted_major" => opPlantedMajor j
   | "planted_minor" => opPlantedMinor j
   | "minor_readout" => opMinorReadout j
